@@ -111,9 +111,12 @@ package tracing
 //@   flag allocs
 //@   emits Call(code("ITracer.Subscribe"), this)
 //@   ensures result != nil
+// Giving a subscription back is one Call event (a goroutine that leaves without it keeps a channel registered that
+// nobody reads: the tracer blocks on it as soon as its buffer is full).
 //@ func ITracer.Unsubscribe
 //@   assumed
-//@   flag emits opaque
+//@   modifies nothing
+//@   emits Call(code("tracing|ITracer.Unsubscribe"), this)
 //@ func ITracer.Done
 //@   assumed
 //@   pure
